@@ -105,6 +105,18 @@ Theorem C08_list_name_roundtrip_partial : forall (mode nlink size mtime name : t
 Proof. exact list_name_roundtrip_partial. Qed.
 Print Assumptions C08_list_name_roundtrip_partial.
 
+(* ... and the path the lister yields for the entry is dir / name for EVERY listed path dir -- relative
+   or absolute, one component or many, also a directory carrying the entry's own name (x/x) *)
+Theorem C08_list_entry_path_partial : forall (mode nlink size mtime name : text) t m' dir,
+  mode = t :: m' -> length m' = 9%nat -> (t =? 108) = false -> nows mode ->
+  digits nlink -> digits size ->
+  length mtime = 12%nat -> (exists c r, mtime = c :: r /\ is_space c = false) ->
+  valid_name name -> lstrip name = name ->
+  option_map (lister_join dir) (list_parse (build_list mode nlink size mtime name ++ eol))
+  = Some (mkp (anchor dir) (parts dir ++ [name])).
+Proof. exact list_entry_path_partial. Qed.
+Print Assumptions C08_list_entry_path_partial.
+
 Theorem C08_list_name_leading_space_refuted :
   valid_name sp_name /\
   list_name (build_list [45;114;119;45;114;119;45;114;119;45] [49] [48]
@@ -313,6 +325,14 @@ Example C08_ex_compose_run :
   = Some (NDir [(n_sp, NDir [(n_q, NDir []); (n_sp, NDir []); (n_ty, NDir []); (n_250, NDir [])])],
           [n_sp; n_ty]).
 Proof. exact ex_run. Qed.
+
+(* the quantifier includes a name equal to its ancestors' names: the hypotheses hold for n = a<q>b below
+   the working directory /a<q>b/a<q>b (the node n/n/n), spelled relatively *)
+Example C08_ex_same_name_nested :
+  ready 0 ex_w_nested [n_q; n_q] /\ valid_path (mkp 0 [n_q]) /\ target [n_q; n_q] (mkp 0 [n_q]) = [n_q; n_q] ++ [n_q] /\
+  (forall q, rw ex_user ([n_q; n_q] ++ q)) /\ Forall valid_name [n_q; n_q] /\
+  lookup [n_q; n_q] (w_fs ex_w_nested) = Some (NDir []) /\ assoc_t n_q ([] : list (text * node)) = None.
+Proof. exact ex_same_name_nested. Qed.
 
 (* Not covered by the composed theorem: RNTO to a different parent directory, STOR onto an existing file /
    APPE / REST offsets (C05, C09), permission refusals (C04), concurrency (C17); what Model/Session.v
